@@ -97,6 +97,10 @@ pub struct Obs {
 pub struct Case {
     pub head: String,
     pub cuts: Vec<usize>,
+    /// the client sends only the first `eof_at` bytes of the head (negative: the head less its last
+    /// `-eof_at` bytes; always a proper prefix) and then closes its side
+    #[serde(default, skip_serializing_if = "Option::is_none")]
+    pub eof_at: Option<i64>,
 }
 
 struct RunOut {
@@ -106,6 +110,7 @@ struct RunOut {
     max_read_cap: usize,
     want: Want,
     stream_len: usize,
+    with_payload: bool,
 }
 
 async fn run_one(c: &Case, tag: &str) -> Result<RunOut, String> {
@@ -114,8 +119,15 @@ async fn run_one(c: &Case, tag: &str) -> Result<RunOut, String> {
     let canary = door::start_canary().await;
     let host = format!("h.{tag}.c08.test");
     sys::script_host(&host, HostAnswer::Addrs(vec!["127.0.0.1".parse().unwrap()]));
-    let (mut bytes, want, with_payload) = head(&c.head, canary.addr, &host);
-    if with_payload {
+    let (mut bytes, mut want, with_payload) = head(&c.head, canary.addr, &host);
+    if let Some(e) = c.eof_at {
+        // an incomplete head followed by the end of the stream: never a request (the head's length
+        // depends on the run's host tag, so the position is clamped to a proper prefix here)
+        let hl = bytes.len() as i64;
+        let p = if e < 0 { hl + e } else { e }.clamp(1, hl - 1);
+        bytes.truncate(p as usize);
+        want = Want::Rejected;
+    } else if with_payload {
         bytes.extend_from_slice(PAYLOAD);
     }
     let (server, h) = sstream::pair();
@@ -159,7 +171,7 @@ async fn run_one(c: &Case, tag: &str) -> Result<RunOut, String> {
     }
     // the resolver runs on another thread: give a pending request real time to complete
     let t0 = std::time::Instant::now();
-    while h.out_len() == 0 && !h.is_shutdown() && t0.elapsed() < Duration::from_secs(3) {
+    while c.eof_at.is_none() && h.out_len() == 0 && !h.is_shutdown() && t0.elapsed() < Duration::from_secs(3) {
         settle(h.clone(), canary.received.clone()).await;
         if matches!(want, Want::Rejected) && t0.elapsed() > Duration::from_millis(30) {
             break;
@@ -216,6 +228,7 @@ async fn run_one(c: &Case, tag: &str) -> Result<RunOut, String> {
         max_read_cap,
         want,
         stream_len: bytes.len(),
+        with_payload,
     })
 }
 
@@ -345,7 +358,7 @@ pub fn run(tier: Tier) -> i32 {
     let mut work: Vec<(Case, Obs)> = vec![];
     let mut n_cases = 0u64;
     for hk in HEADS {
-        let c0 = Case { head: hk.to_string(), cuts: vec![] };
+        let c0 = Case { head: hk.to_string(), cuts: vec![], eof_at: None };
         let _g = crate::engine::watch::enter(format!("C08:wedged:{hk}:one-piece"), json!({"case": c0}).to_string());
         let tag = format!("ref-{hk}");
         match rt::run_paused(run_one(&c0, &tag)) {
@@ -360,7 +373,28 @@ pub fn run(tier: Tier) -> i32 {
                 let head_len = r.stream_len - if r.obs.to_destination == PAYLOAD || matches!(r.want, Want::Tunnel | Want::Rejected | Want::Unconstrained) && r.stream_len > PAYLOAD.len() { 0 } else { 0 };
                 let reference = normalise(r.obs.clone(), &tag);
                 for cuts in cuts_for(r.stream_len, head_len.saturating_sub(PAYLOAD.len()).max(8), tier) {
-                    work.push((Case { head: hk.to_string(), cuts }, reference.clone()));
+                    work.push((Case { head: hk.to_string(), cuts, eof_at: None }, reference.clone()));
+                }
+                // the client goes away in the middle of the head: every prefix (short heads) or the
+                // structural positions (long heads), in one piece and byte at a time
+                let full_head = r.stream_len - if r.with_payload { PAYLOAD.len() } else { 0 };
+                let mut ends: Vec<usize> = if full_head <= tier.pick(140, 1200) {
+                    (1..full_head).collect()
+                } else {
+                    let mut p = vec![1, 2, 7, 8, 16, 17, 40, full_head / 2, 1000, 1022, 1023, 1024, 1025, full_head - 5, full_head - 4, full_head - 3, full_head - 2, full_head - 1];
+                    p.retain(|x| *x > 0 && *x < full_head);
+                    p
+                };
+                ends.sort();
+                ends.dedup();
+                for (k, e) in ends.iter().enumerate() {
+                    work.push((Case { head: hk.to_string(), cuts: vec![], eof_at: Some(*e as i64) }, reference.clone()));
+                    if k % 7 == 0 && *e <= 300 {
+                        work.push((Case { head: hk.to_string(), cuts: (1..*e).collect(), eof_at: Some(*e as i64) }, reference.clone()));
+                    }
+                }
+                for back in 1..=tier.pick(8i64, 40i64) {
+                    work.push((Case { head: hk.to_string(), cuts: vec![], eof_at: Some(-back) }, reference.clone()));
                 }
                 n_cases += 1;
             }
@@ -368,11 +402,19 @@ pub fn run(tier: Tier) -> i32 {
     }
     let r = sweep_dyn(work.len() as u64, 4, Duration::from_secs(tier.pick(45, 1500)), rt::workers(), |i| {
         let (c, reference) = &work[i as usize];
-        let kind = if c.cuts.len() > 3 { "byte-at-a-time" } else if c.cuts.len() == 2 { "2-cut" } else { "1-cut" };
+        let kind = if c.eof_at.is_some() { "eof-in-mid-head" } else if c.cuts.len() > 3 { "byte-at-a-time" } else if c.cuts.len() == 2 { "2-cut" } else { "1-cut" };
         let _g = crate::engine::watch::enter(format!("C08:wedged:{}:{kind}", c.head), json!({"case": c}).to_string());
         let tag = format!("w{i}");
         let out = rt::run_paused(run_one(c, &tag)).map_err(|e| Violation::new("C08:machinery", e, json!({"case": c})))?;
         judge_common(c, &out)?;
+        if let Some(e) = c.eof_at {
+            // Want::Rejected: no success response, nothing forwarded, the session ends with its client
+            judge_reference(c, &out).map_err(|mut v| {
+                v.signature = format!("{}:eof-in-mid-head", v.signature);
+                v
+            })?;
+            return Ok(Cow::Owned(format!("{}:eof@{}:{:?}", c.head, if (0..20).contains(&e) { "request-line" } else { "headers" }, out.obs.status)));
+        }
         let got = normalise(out.obs.clone(), &tag);
         let unconstrained_limit = matches!(c.head.as_str(), "head-1024B" | "head-1025B" | "head-1100B");
         if got != *reference && !unconstrained_limit {
@@ -393,7 +435,7 @@ pub fn run(tier: Tier) -> i32 {
     rep.add("distinct_nontrivial", r.classes.len() as u64);
     rep.violations(r.violations);
     rep.cov("exhaustive", r.completed);
-    rep.cov("rule", format!("{} request heads (+6 payload bytes) x every 1-cut and 2-cut (all byte positions for streams <= {} B, structural positions for the ~1 KiB heads) + byte-at-a-time; distinct = (head, status) classes", HEADS.len(), tier.pick(140, 260)));
+    rep.cov("rule", format!("{} request heads (+6 payload bytes) x every 1-cut and 2-cut (all byte positions for streams <= {} B, structural positions for the ~1 KiB heads) + byte-at-a-time; + the client closing after every proper prefix of the head (all positions for heads <= {} B, structural positions above; one piece and byte at a time): no success response, nothing forwarded, the session ends, no spin; distinct = (head, status) classes", HEADS.len(), tier.pick(140, 260), tier.pick(140, 1200)));
     rep.sample(json!({"head":"connect-host","cuts":[17, 60]}));
     rep.assume("the endpoint runs to quiescence between pieces (40 consecutive idle scheduler turns); select! start index fixed at 0");
     rep.assume("heads of 1024 bytes and more may be accepted or rejected depending on read sizes; only bounded buffering is required of them");
@@ -403,13 +445,16 @@ pub fn run(tier: Tier) -> i32 {
 pub fn replay(case: &serde_json::Value) -> Result<(), Violation> {
     let c: Case = serde_json::from_value(case["case"].clone()).map_err(|_| Violation::new("C08:machinery", "bad replay file", json!({})))?;
     crate::engine::watch::start("C08", "quick", Duration::from_secs(30), crate::engine::watch::OnExpiry::Violation);
-    let kind = if c.cuts.len() > 3 { "byte-at-a-time" } else if c.cuts.len() == 2 { "2-cut" } else if c.cuts.is_empty() { "one-piece" } else { "1-cut" };
+    let kind = if c.eof_at.is_some() { "eof-in-mid-head" } else if c.cuts.len() > 3 { "byte-at-a-time" } else if c.cuts.len() == 2 { "2-cut" } else if c.cuts.is_empty() { "one-piece" } else { "1-cut" };
     let _g = crate::engine::watch::enter(format!("C08:wedged:{}:{kind}", c.head), json!({"case": c}).to_string());
-    let c0 = Case { head: c.head.clone(), cuts: vec![] };
+    let c0 = Case { head: c.head.clone(), cuts: vec![], eof_at: None };
     let r0 = rt::run_paused(run_one(&c0, "r0")).map_err(|e| Violation::new("C08:machinery", e, json!({})))?;
     let r1 = rt::run_paused(run_one(&c, "r1")).map_err(|e| Violation::new("C08:machinery", e, json!({})))?;
     judge_reference(&c0, &r0)?;
     judge_common(&c, &r1)?;
+    if c.eof_at.is_some() {
+        return judge_reference(&c, &r1);
+    }
     if normalise(r0.obs, "r0") != normalise(r1.obs, "r1") && !matches!(c.head.as_str(), "head-1024B" | "head-1025B" | "head-1100B") {
         return Err(Violation::new(format!("C08:segmentation-dependent:{}", c.head), "differs from one-piece delivery", json!({"case": c})));
     }
